@@ -91,13 +91,14 @@ def do_VERIFY (s : State) : M State := do
 
 def do_DEPTH (s : State) : M State := pure (pushInt s.stack.length s)
 
-/-- `v = vm.pop_nonnegative(); vm.append(vm[-v - 1])` (unbounded `pop_int`) -/
+/-- `v = vm.pop_nonnegative(); vm.append(vm[-v - 1])` -/
 def do_PICK (flags : Nat) (s : State) : M State := do
   let (v, s) ← popNonnegative flags s
   pure (push (← peek (v + 1) s) s)
 
 /-- `vm.append(vm.pop(-v - 1))`: `list.pop` converts its index to a C `ssize_t`, so `-v - 1 < -2^63` is an
-`OverflowError` that `VM.pop` does not catch (CPython, 64-bit); `list.__getitem__` (PICK) reports `IndexError` instead -/
+`OverflowError` that `VM.pop` does not catch (CPython, 64-bit); `list.__getitem__` (PICK) reports `IndexError` instead.
+Unreachable since `pop_int` bounds the operand to 4 bytes; kept because the code path exists. -/
 def do_ROLL (flags : Nat) (s : State) : M State := do
   let (v, s) ← popNonnegative flags s
   if v ≥ 2 ^ 63 then .error (.py "OverflowError")
@@ -146,7 +147,7 @@ def do_MAX := binOp (fun x y => max x y)
 def do_NUMEQUALVERIFY (flags : Nat) (s : State) : M State := do
   do_VERIFY (← do_NUMEQUAL flags s)
 
-/-- `v3, v2, v1 = [vm.pop_int() for i in range(3)]; ok = v2 <= v1 < v3` (unbounded `pop_int`) -/
+/-- `v3, v2, v1 = [vm.pop_int() for i in range(3)]; ok = v2 <= v1 < v3` -/
 def do_WITHIN (flags : Nat) (s : State) : M State := do
   let (v3, s) ← popInt flags s
   let (v2, s) ← popInt flags s
@@ -167,14 +168,16 @@ def do_NOT (flags : Nat) (s : State) : M State := do
   let (v, s) ← popCheckBounds flags s
   pure (push (boolToScriptBytes (v == 0)) s)
 
-/-- `vm.push_int(vm.bool_from_script_bytes(vm.pop(), require_minimal=vm.flags & VERIFY_MINIMALDATA))`;
-`push_int(True) = b"\x01"`, `push_int(False) = b""` -/
+/-- `vm.append(vm.bool_to_script_bytes(pop_check_bounds(vm) != 0))` -/
 def do_0NOTEQUAL (flags : Nat) (s : State) : M State := do
-  let (x, s) ← pop s
-  let b ← boolFromScriptBytes x (hasFlag flags VERIFY_MINIMALDATA)
-  pure (pushInt (if b then 1 else 0) s)
+  let (v, s) ← popCheckBounds flags s
+  pure (push (boolToScriptBytes (v != 0)) s)
 
 /-! ## miscops.py -/
+
+/-- `miscops.do_OP_IFDUP`: `if vm.bool_from_script_bytes(vm[-1]): vm.append(vm[-1])` -/
+def do_IFDUP_misc (s : State) : M State := do
+  if ← boolFromScriptBytes (← peek 1 s) then pure (push (← peek 1 s) s) else pure s
 
 def do_CODESEPARATOR (s : State) : M State := pure { s with beginCodeHash := s.pc }
 
@@ -209,8 +212,8 @@ def doIf (reverseBool : Bool) (flags : Nat) (s : State) : M State := do
 def do_ELSE (s : State) : M State := do pure { s with cond := ← s.cond.opElse }
 def do_ENDIF (s : State) : M State := do pure { s with cond := ← s.cond.opEndif }
 
-/-- `do_OP_CHECKLOCKTIMEVERIFY`; every raise after the flag test carries no errno.  The operand is popped,
-decoded and **re-encoded** (`pop_int` / `push_int`). -/
+/-- `do_OP_CHECKLOCKTIMEVERIFY`; every raise after the flag test carries no errno (except `pop_int`'s).
+`operand = vm[-1]; pop_int(max_size=5); vm.append(operand)`: the operand stays as it was. -/
 def do_CHECKLOCKTIMEVERIFY (cfg : Config) (s : State) : M State :=
   let flags := cfg.flags
   if !hasFlag flags VERIFY_CHECKLOCKTIMEVERIFY then
@@ -220,8 +223,9 @@ def do_CHECKLOCKTIMEVERIFY (cfg : Config) (s : State) : M State :=
   | [] => .error (.script none)
   | top :: _ =>
     if top.length > 5 then .error (.script none) else do
-    let (maxLockTime, s) ← popInt flags s
-    let s := pushInt maxLockTime s
+    let operand ← peek 1 s
+    let (maxLockTime, s) ← popInt flags s 5
+    let s := push operand s
     if maxLockTime < 0 then .error (.script none)
     else if decide (maxLockTime ≥ 500000000) != decide (cfg.ctx.lockTime ≥ 500000000) then .error (.script none)
     else if maxLockTime > (cfg.ctx.lockTime : Int) then .error (.script none)
@@ -246,8 +250,9 @@ def do_CHECKSEQUENCEVERIFY (cfg : Config) (s : State) : M State :=
   | [] => .error invalidStack
   | top :: _ =>
     if top.length > 5 then .error (scriptErr (errno_INVALID_STACK_OPERATION + 1)) else do
-    let (sequence, s) ← popInt flags s
-    let s := pushInt sequence s
+    let operand ← peek 1 s
+    let (sequence, s) ← popInt flags s 5
+    let s := push operand s
     if sequence < 0 then .error (scriptErr errno_NEGATIVE_LOCKTIME)
     else if hasFlag sequence.toNat SEQUENCE_LOCKTIME_DISABLE_FLAG then pure s
     else if cfg.ctx.version < 2 then .error (scriptErr errno_UNSATISFIED_LOCKTIME)
